@@ -208,6 +208,35 @@ func c12(x *mon.Ctx) {
 	x.Require("fetch-discipline/base", nw/8, 1, nw)
 	x.Require("processor-ca-crl-request", 0, 0, nw/10-1)
 
+	// ---- (b') two PCK certificates of ONE issuer carrying ONE serial number but different platforms (FMSPC, SVNs), verified one
+	//      after the other: the second verdict and the FMSPC in its TCB-Info request belong to the second certificate
+	x.Each(x.Pick(8, 100), func(i int) {
+		r := x.Rand(fmt.Sprint("same-serial", i))
+		a := richHonest(r)
+		b := world.Honest(r, world.HonestOpts{Shape: world.QuoteShape{AuthLen: 32}, Platform: svnPlatform(r)})
+		b.PKI.Root, b.PKI.Inter, b.PKI.TcbSign = a.PKI.Root, a.PKI.Inter, a.PKI.TcbSign
+		t := world.LeafTemplate(world.Far, world.SgxExtension(b.P))
+		t.SerialNumber = a.PKI.Leaf.Cert.SerialNumber
+		b.PKI.Leaf = world.Issue(t, a.PKI.Inter, b.PKI.Leaf.Key)
+		b.Q.Chain = world.ChainPEM(false, b.PKI.Leaf, b.PKI.Inter, b.PKI.Root)
+		b.Requote()
+		b.Roots = a.Roots
+		b.Resign()
+		b.MakeCRLs(nil, nil)
+		for k, o := range combos[:3] {
+			for step, w := range []*world.World{a, b, a} {
+				c := w.Case(world.LCrl, "same-issuer-same-serial", fmt.Sprintf("pair%d/%s/step%d", i, o.name, step))
+				c.GetCollateral, c.CheckCRL, c.Expect = o.get, o.crl, "accept"
+				c.Form = mon.Forms[(i+k+step)%4]
+				out, v := check(x, i, c)
+				if p := fetchProblem(c, out, v); p != "" {
+					x.Violation("fetch-discipline", c.Param, p, "verify", c)
+				}
+			}
+		}
+	})
+	x.Require("same-issuer-same-serial", 72, 0, 72)
+
 	// ---- (c) histories through one shared Options value
 	nh := x.Pick(200, 5000)
 	x.Each(nh, func(i int) {
